@@ -68,7 +68,7 @@ CHECKS = {
  "C19": ("classification_sim", "exploration",
          "deterministic simulation: learn once on seeded data, then seeded histories of __call__ / test_data / evaluate / re-evaluation requests with data inside, partly outside and entirely outside the learned range; arg-max reference oracle under the learning-time scaling",
          "Seeded search over learning configurations (2-4 classes, split percentage, even/uneven split, shuffle via the seeded global PRNG, standard or dimension-wise learning) and call histories. Oracle: positions are re-scaled by the harness with the range and factor reported at learning time; returned classes must be a maximiser of the learned per-class densities for exactly the in-range (and, for test_data, labelled) samples; out-of-range samples are absent and all-out data is refused; summaries (wrong, total, percentage) of test_data and evaluate() are recomputed; classes recorded for earlier data are a stable prefix and re-evaluating earlier data gives the same classes; after continue_dimension_wise_refinement the classes recorded for the held testing samples are maximisers of the refined densities; a second learning call is refused.",
-         "Trusted: the density values returned by the learned combination objects (their correctness is C16/C17's subject), harness re-scaling. Stubs: clock; global PRNG seeded by the run.",
+         "Trusted: harness re-scaling and the harness's own multilinear interpolation (scipy) of the per-grid coefficients, scheme and 1-D point lists the learned objects publish - the objects' own density answers are compared with it, not trusted. In a third of the runs the size threshold is moved through the guarded hook so that learning and evaluation use the large-grid implementations. Stubs: clock; global PRNG seeded by the run.",
          "DESIGN.md section 5, C19"),
  "C17": ("de_reuse_sim", "exploration",
          "deterministic simulation: twin executions of the same seeded refinement history with the caches on / off and with the size threshold moved through the guarded hook so that both implementations run on the same grids",
@@ -107,7 +107,7 @@ def main():
     m = {
         "version": 1,
         "setup_cmd": "./setup.sh",
-        "hooks": {"guard": "SPARSESPACE_VERIF", "enable": "checks import sparseSpACE from /repo's working tree (or VERIF_REPO); all seams (clock, PRNGs, persistence, environment callbacks, observers) are installed from the harness at run time. One guarded knob exists in /repo: with SPARSESPACE_VERIF=1 the density-estimation size threshold (literal 200 in GridOperation.py) is read from SPARSESPACE_VERIF_DE_THRESHOLD; the C17 check sets both variables in-process for the executions that need it and clears them afterwards",
+        "hooks": {"guard": "SPARSESPACE_VERIF", "enable": "checks import sparseSpACE from /repo's working tree (or VERIF_REPO); all seams (clock, PRNGs, persistence, environment callbacks, observers) are installed from the harness at run time. One guarded knob exists in /repo: with SPARSESPACE_VERIF=1 the density-estimation size threshold (literal 200 in GridOperation.py) is read from SPARSESPACE_VERIF_DE_THRESHOLD; the C17 and C19 checks set both variables in-process for the executions that need it and clear them afterwards",
                   "baseline_off_cmd": "cd /repo && /venv/bin/python -m pytest -ra -q -p no:cacheprovider --timeout=900 --continue-on-collection-errors",
                   "source_commits": ["97887985b1757391439f768f668ee9af13e31c7c"], "add_only": True},
         "engines": [{"name": e, "path": "engines/%s.py" % e, "serves_properties": sorted(p),
